@@ -121,7 +121,12 @@ def build_attr(a):
         return complex(a[1], a[2])
     dims = [d for d, _ in a[1]]
     shape = [len(ls) for _, ls in a[1]]
-    return xr.DataArray(np.array(a[2], dtype=float).reshape(shape), dims=dims, coords={d: list(ls) for d, ls in a[1]})
+    pairs = list(a[1])
+    if len(pairs) >= 2 and int(round(abs(a[2][0]) * 1e6)) % 2 == 0:
+        # the coordinate mapping of a DataArray keeps ITS insertion order, which need not be the order of the dimensions
+        # (xr.concat / dict_to_array produce (vector, illumination) coordinates on (illumination, vector) data)
+        pairs = pairs[::-1]
+    return xr.DataArray(np.array(a[2], dtype=float).reshape(shape), dims=dims, coords={d: list(ls) for d, ls in pairs})
 
 
 def gen_image_spec(rng, dtypes=None, min_side=1, findings=True):
